@@ -165,9 +165,20 @@ def seg_sizes(kind, total, rnd):
     return [rnd.choice([1, 2, 3, 50, 1000, 4095, 4096, 4097, 9999]) for _ in range(rnd.randint(1, 12))]
 
 
+REQCH = "".join(chr(i) for i in range(33, 127))
+
+
 def program(plan, method, stream, lim, fin, seg, rnd, cancel=None, reqhdrs=None, reqbody=b"", conn="O", fail=None, stall=False):
     L = ["prog http", "plan " + json.dumps(plan, separators=(",", ":")), "method " + method,
-         "path " + rnd.choice(["/", "/a/b?c=d", "/" + "x" * 300])]
+         "path " + rnd.choice(["/", "/a/b?c=d", "/" + "x" * 300, "/" + "".join(rnd.choice(REQCH) for _ in range(rnd.choice([1, 7, 63, 64, 65, 500, 1000])))])]
+    if reqhdrs is None and rnd.random() < 0.3:
+        # the request is sent as given: up to 40 headers, names and values of any printable bytes (values also empty, with inner
+        # spaces and colons, several kB long), repeated names
+        reqhdrs = []
+        for _ in range(rnd.choice([1, 2, 5, 16, 17, 40])):
+            name = rnd.choice(["Host", "X-A", "Content-Type", "Connection", "x", "".join(rnd.choice(REQCH.replace(":", "")) for _ in range(rnd.choice([1, 9, 30])))])
+            val = "".join(rnd.choice(REQCH + "  :") for _ in range(rnd.choice([0, 1, 8, 60, 255, 256, 4000]))).strip()
+            reqhdrs.append((name, val))
     for h, v in (reqhdrs if reqhdrs is not None else [("Host", "example.com"), ("X-Empty", ""), ("Accept", "*/*")][:rnd.randint(0, 3)]):
         L.append("hdr %s %s" % (h, v))
     if method in ("POST", "PUT") and rnd.random() < 0.8:
